@@ -16,7 +16,7 @@ def nameId (ns : NameTab) (n : String) : NameTab × Nat :=
   | none => (ns ++ [n], ns.length + 1)
 
 def abiId : Char → Nat
-  | 'r' => 0 | 'c' => 1 | 's' => 2 | _ => 9
+  | 'r' => 0 | 'c' => 1 | 's' => 2 | 'u' => 3 | 'v' => 4 | _ => 9
 
 mutual
 /-- prefix-notation descriptor tokens → type (see harness/hx/src/sigs.rs) -/
@@ -105,7 +105,7 @@ def nameOf (ns : NameTab) (i : Nat) : String :=
 def spell (ns : NameTab) (toks : List Tok) : String :=
   String.ofList (Sig.spellC
     { id := fun n => (nameOf ns n).toList, num := fun n => (toString n).toList,
-      abi := fun a => (if a == 1 then "C" else if a == 2 then "system" else "?").toList } toks)
+      abi := fun a => (if a == 1 then "C" else if a == 2 then "system" else if a == 3 then "C-unwind" else if a == 4 then "system-unwind" else "?").toList } toks)
 
 /-- `sigty <idx> <descr> | raw=… canon=…` : the model's rendering vs rustc's -/
 def handleSigTy (args obs : List String) : Verdict :=
